@@ -20,8 +20,12 @@ import decimal
 NUMKEY = {'k1': decimal.Decimal('1.5'), 'k2': decimal.Decimal('2.5')}
 
 
-def mkrow(k, v, cols):
-    r = {'k': NUMKEY[k] if 'numkey' in cols else k, 'v': v}
+# configuration 'schema_change': the declared type of column v alternates from dump to dump (same column names)
+VPHASE = [{'x': 7, 'y': 10, 'n': None}, {'x': '007', 'y': '010', 'n': None}]
+
+
+def mkrow(k, v, cols, phase=None):
+    r = {'k': NUMKEY[k] if 'numkey' in cols else k, 'v': v if phase is None else VPHASE[phase][v]}
     if 'arr' in cols:
         r['arr'] = copy.deepcopy(ARR[v])
     if 'obj' in cols:
@@ -89,11 +93,11 @@ def model_apply(table, mode, batch, pk):
     return table, flags
 
 
-def do_dump(dbpath, cfg, mode, batch):
+def do_dump(dbpath, cfg, mode, batch, phase=None):
     cols = cfg['cols']
-    fields = [('k', 'number' if 'numkey' in cols else 'string'), ('v', 'string')] + ([('arr', 'array')] if 'arr' in cols else []) + \
-        ([('obj', 'object')] if 'obj' in cols else [])
-    rows = [mkrow(k, v, cols) for k, v in batch]
+    fields = [('k', 'number' if 'numkey' in cols else 'string'), ('v', 'integer' if phase == 0 else 'string')] + \
+        ([('arr', 'array')] if 'arr' in cols else []) + ([('obj', 'object')] if 'obj' in cols else [])
+    rows = [mkrow(k, v, cols, phase) for k, v in batch]
     st = mkstate([('r', fields, rows)] + ([('r2', fields, copy.deepcopy(rows))] if cfg.get('two') else []))
     if cfg['pk']:
         for r in st.desc['resources']:
@@ -181,7 +185,8 @@ def explore(task):
             blob, table, hist = states[key]
             if len(hist) >= depth:
                 continue
-            for mode in MODES:
+            phase = (len(hist) % 2) if cfg.get('schema_change') else None
+            for mode in cfg.get('modes', MODES):
                 for bi, batch in enumerate(BATCHES):
                     if os.path.exists(db):
                         os.remove(db)
@@ -190,7 +195,7 @@ def explore(task):
                             f.write(blob)
                     h2 = hist + [[mode, bi]]
                     label = 'config %s, history %s' % (cj(cfg), ' ; '.join('%s%s' % (m, BATCHES[b]) for m, b in h2))
-                    mrows = [mkrow(k, v, cfg['cols']) for k, v in batch]
+                    mrows = [mkrow(k, v, cfg['cols'], phase) for k, v in batch]
                     if cfg.get('pk_other'):
                         for row in mrows:
                             row['u'] = '%s/%s/%s' % (row['k'], row['v'], mode)
@@ -199,7 +204,7 @@ def explore(task):
                         us = [t['u'] for t in exp[0]]
                         if len(set(us)) != len(us):
                             exp = 'rejected'          # the database enforces the schema's primary key
-                    kind, got, inrows = do_dump(db, cfg, mode, batch)
+                    kind, got, inrows = do_dump(db, cfg, mode, batch, phase)
                     out['n'] += 1
                     out['transitions'] += 1
                     out['keys'].append(h([cfg, key, mode, bi]))
@@ -315,6 +320,8 @@ def configs(tier):
         out.append({'pk': False, 'batch_size': 1000, 'bloom': bloom, 'cols': [], 'pk_other': True})
     out.append({'pk': False, 'batch_size': 1000, 'bloom': True, 'cols': [], 'keys_always': True})
     out.append({'pk': False, 'batch_size': 1000, 'bloom': True, 'cols': [], 'neighbours': True})
+    for pk in (False, True):
+        out.append({'pk': pk, 'batch_size': 1000, 'bloom': True, 'cols': [], 'schema_change': True, 'modes': ['rewrite']})
     out.append({'pk': False, 'batch_size': 1, 'bloom': False, 'cols': ['arr', 'obj'], 'keys_always': True})
     # one step writing two tables with the same column names
     for pk in (False, True):
